@@ -571,7 +571,7 @@ def handleReads : Handler := fun inp out => do
   let answers ← arrField out "answers"
   if optStrField out "err" != "" then throw ("harness error: " ++ optStrField out "err")
   let pid := match optStrField inp "prop", workload with
-    | "", "filter" => "C20" | "", "page" => "C21" | "", "runquery" => "C37" | "", "meta" => "C17" | "", _ => "C05"
+    | "", "filter" => "C20" | "", "page" => "C21" | "", "runquery" => "C37" | "", "meta" => "C17" | "", "gates" => "C35" | "", _ => "C05"
     | p, _ => p
   let a ← steps.foldlM (stepAcc pid feat) { results, answers }
   let txs := a.s.txs
